@@ -279,3 +279,71 @@ def union_check(H):
 
 CHECKS.append(Check("union", [f"{TR}._utils._union", f"{TR}.tensor_dict._least_common_ancestor", f"{BASE}.Conjunction._compute"], union_check,
                     replay_keys=["C14.output"]))
+
+
+# ----------------------------------------------------------------------------- shape rules of the other dictionary types; Stack.__init__
+
+
+def typed_dict_shape_check(clsname):
+    """<clsname>(d) raises ValueError iff some value contradicts the type's shape rule (values of the right RANK with
+    arbitrary symbolic sizes; a value of another rank is rejected structurally: see rank_check)."""
+    def fn(H):
+        def body(cx):
+            it = H.interp(cx)
+            K = A.tensor_list(cx, "K", distinct=True)
+            mf = cx.fresh_func("vrows", TenS, z3.IntSort())
+            cf = cx.fresh_func("vcols", TenS, z3.IntSort())
+            shp = cx.fresh_func("vshape", TenS, A.ShapeS)
+            tq = z3.Const("t!q", TenS)
+            cx.assume(V.forall([tq], z3.And(mf(tq) >= 0, cf(tq) >= 0)))
+            if clsname == "Jacobians":
+                val = lambda t: LTen(V.Shape([mf(t)], shp(t)), lambda ix: z3.RealVal(0))  # noqa: E731
+                ok_pair = lambda t: shp(t) == V.TRef(t).shape.tail  # noqa: E731
+                need_rows = True
+            elif clsname == "JacobianMatrices":
+                val = lambda t: LTen(V.Shape([mf(t), cf(t)]), lambda ix: z3.RealVal(0))  # noqa: E731
+                ok_pair = lambda t: cf(t) == A.numel(t)  # noqa: E731
+                need_rows = True
+            else:  # GradientVectors
+                val = lambda t: LTen(V.Shape([cf(t)]), lambda ix: z3.RealVal(0))  # noqa: E731
+                ok_pair = lambda t: cf(t) == A.numel(t)  # noqa: E731
+                need_rows = False
+            order = A.arbitrary_order(cx, it, K)
+            kind, g = call_catch(lambda: it.call(H.repo.get(f"{TR}.tensor_dict.{clsname}"), [V.SymMap(order, val)]))
+            i, j = z3.Int("i!q"), z3.Int("j!q")
+            ok = V.forall([j], z3.Implies(z3.And(0 <= j, j < K.length), ok_pair(K.get(j).ref)))
+            if need_rows:
+                ok = z3.And(ok, V.forall([i, j], z3.Implies(z3.And(0 <= i, i < K.length, 0 <= j, j < K.length),
+                                                            mf(K.get(i).ref) == mf(K.get(j).ref))))
+            if kind == "raise":
+                cx.oblige(f"C14.tdict.{clsname}.init.raises_only_on_shape_mismatch", z3.And(g.cls == "ValueError", z3.Not(ok)),
+                          where=str(getattr(g, "where", "")))
+            else:
+                cx.oblige(f"C14.tdict.{clsname}.init.accepts_only_matching_shapes", ok)
+        H.explore(body, max_paths=2000)
+    return Check(f"shape.{clsname}", [f"{TR}.tensor_dict.TensorDict.__init__", f"{TR}.tensor_dict.{clsname}._check_key_value_pair",
+                                      f"{TR}.tensor_dict._check_values_have_unique_first_dim", f"{TR}.tensor_dict._check_value_n_dim",
+                                      f"{TR}.tensor_dict._check_corresponding_numel", f"{TR}.tensor_dict._check_value_has_jacobian_shape"],
+                 fn, replay_keys=["C14.shape_check"])
+
+
+def stack_init_check(k):
+    def fn(H):
+        def body(cx):
+            it = H.interp(cx)
+            ts = [abstract_transform(cx, it, H, f"t{i}") for i in range(k)]
+            kind, s = call_catch(lambda: it.call(H.repo.get(f"{TR}.stack.Stack"), [[t[0] for t in ts]]))
+            same_req = z3.And([ts[i][1].arr == ts[0][1].arr for i in range(1, k)]) if k > 1 else z3.BoolVal(True)
+            if kind == "raise":
+                cx.oblige(f"C14.stack{k}.init.raises_only_if_required_keys_differ", z3.And(s.cls == "ValueError", z3.Not(same_req)))
+                return
+            cx.oblige(f"C14.stack{k}.init.accepts_only_same_required_keys", same_req)
+            x = cx.fresh_const("x", TenS)
+            cx.oblige(f"C14.stack{k}.keys.required", P.lift_set(it, it.getattr(s, "required_keys")).contains(x) == ts[0][1].contains(x))
+            cx.oblige(f"C14.stack{k}.keys.output_is_union", P.lift_set(it, it.getattr(s, "output_keys")).contains(x) == z3.Or([t[2].contains(x) for t in ts]))
+        H.explore(body, max_paths=2000)
+    return Check(f"stack_init{k}", [f"{TR}.stack.Stack.__init__"], fn, replay_keys=["C14.construct"])
+
+
+CHECKS += [typed_dict_shape_check("Jacobians"), typed_dict_shape_check("JacobianMatrices"), typed_dict_shape_check("GradientVectors"),
+           stack_init_check(1), stack_init_check(2), stack_init_check(3)]
